@@ -100,6 +100,49 @@ def reservedName (n : String) : Bool := (Gen.HROps.idents.lookup n).isSome
 
 def lexIdent (s : Sym) : Tok := if reservedName s.name then .op s.name else .ident s
 
+/-! ### which names survive printing and scanning
+
+The scanner is not modelled, but what it does to a *name* is simple enough to be stated: `walk_symbol` writes
+`quote(name, style="'")` (`pysmt/utils.py`): bare when the name matches `_simple_symbol_prog` and is not one of
+`_keywords`, otherwise between single quotes with `\` and `'` escaped by a backslash. The scanner reads a bare name back
+only through its rule `[A-Za-z_][A-Za-z0-9_]*` (and only when no keyword rule — `forall`, `exists` — takes it first), a
+quoted one through `'(.*?)'`, which knows no escape. `hrName` is the set of names for which the two agree. -/
+
+def isIdStart (c : Char) : Bool := c.isAlpha || c == '_'
+def isIdChar (c : Char) : Bool := c.isAlphanum || c == '_'
+/-- the scanner's identifier rule `[A-Za-z_][A-Za-z0-9_]*` covers the whole name -/
+def isHRIdent (n : String) : Bool :=
+  match n.toList with
+  | [] => false
+  | c :: cs => isIdStart c && cs.all isIdChar
+
+def smtSimpleStart (c : Char) : Bool := c.isAlpha || "~!@$%^&*_-+=<>.?/".toList.contains c
+def smtSimpleChar (c : Char) : Bool := smtSimpleStart c || c.isDigit
+/-- `_simple_symbol_prog.match(name)` (Python's `$` also matches before one trailing newline) -/
+def isSmtSimple (n : String) : Bool :=
+  let cs := n.toList
+  let cs := if cs.getLast? = some '\n' then cs.dropLast else cs
+  match cs with
+  | [] => false
+  | c :: rest => smtSimpleStart c && rest.all smtSimpleChar
+
+/-- `quote` writes the name between quotes -/
+def needsQuote (n : String) : Bool := Gen.HROps.quoteKeywords.contains n || !isSmtSimple n
+
+/-- a fixed rule of the scanner spells this name (`forall`, `exists`): the rule comes before the identifier rule -/
+def keywordRule (n : String) : Bool := (Gen.HROps.rules.lookup n).isSome
+
+/-- **names the HR format can carry**: not an entry of the identifier map; printed bare and then an identifier of the
+scanner that no keyword rule takes, or printed quoted and then free of `'` and `\` (finding F30 otherwise) -/
+def hrName (n : String) : Bool :=
+  !reservedName n &&
+  (if needsQuote n then !n.toList.contains '\'' && !n.toList.contains '\\'
+   else isHRIdent n && !keywordRule n)
+
+/-- the regular expression `isSmtSimple` was written against -/
+def alignedSimpleRegex : String :=
+  "^[~!@\\$%\\^&\\*_\\-+=<>\\.\\?\\/A-Za-z][~!@\\$%\\^&\\*_\\-+=<>\\.\\?\\/A-Za-z0-9]*$"
+
 /-! ## the printer -/
 
 abbrev lpar : Tok := .op "("
@@ -708,8 +751,8 @@ def readableTy : Ty → Bool
   | .str | .custom _ => false
 
 /-- the local condition on a node `op args p` of the fragment: its syntactic form is one the parser reads back
-(binary infix applications, every hand-modelled form), names are not entries of the identifier map, string constants hold
-no double quote (F30), and **the constructor the parser calls for this form, applied to these arguments, returns this very
+(binary infix applications, every hand-modelled form), names are names the format can carry (`hrName`: F30 otherwise), string
+constants hold no double quote (F30), and **the constructor the parser calls for this form, applied to these arguments, returns this very
 node** (`isOk`: the node is what the formula manager builds — well-typed, canonical payload, in the manager's normal form). -/
 def fragNode (op : Op) (args : List Term) (p : Payload) : Bool :=
   let node := Term.node op args p
@@ -736,7 +779,7 @@ def fragNode (op : Op) (args : List Term) (p : Payload) : Bool :=
      | none => false)
   | some .ite, _, [c, a, b] => isOk (liftMk (Mk.Ite c a b)) node
   | some (.quant s), .qvars vs, [b] =>
-    !vs.isEmpty && vs.all (fun v => !reservedName v.name) &&
+    !vs.isEmpty && vs.all (fun v => hrName v.name) &&
     (match quantOf s with
      | some (c, _) => isOk (applyQuant c (vs.map Term.sym) b) node
      | none => false)
@@ -746,8 +789,8 @@ def fragNode (op : Op) (args : List Term) (p : Payload) : Bool :=
   | some .arrayValue, .ty idx, [d] =>
     readableTy idx && (match d.typeOf with | some τ => readableTy τ | none => false) &&
       isOk (liftMk (Mk.Array idx d [])) node
-  | some .app, .sym f, a :: as => !reservedName f.name && isOk (liftMk (Mk.Function f (a :: as))) node
-  | some .sym, .sym s, [] => !reservedName s.name
+  | some .app, .sym f, a :: as => hrName f.name && isOk (liftMk (Mk.Function f (a :: as))) node
+  | some .sym, .sym s, [] => hrName s.name
   | some .const, p, [] =>
     (match op, p with
      | .realConst, .q _ => true
@@ -814,9 +857,47 @@ def inHRFragN : Term → Bool
 /-- the fragment of `hr_roundtrip_partial` -/
 def InHRFragN (t : Term) : Prop := inHRFragN t = true
 
-/-- token lists that differ at most in parentheses (the grouping of n-ary operators) -/
+/-! ## an explicit sufficient condition for the fragment (`Props.C09HR.hr_frag_of_printable_partial`) -/
+
+/-- the operator slice for which `InHRFragN` is *derived* from C07's `Printable` and the manager's normal form: Boolean
+connectives, linear integer / real arithmetic and comparisons, equality, if-then-else, array select / store, symbols,
+function applications, quantifiers, Boolean / integer / real constants -/
+def sliceOp : Op → Bool
+  | .and | .or | .not | .implies | .iff | .ite | .equals | .le | .lt | .plus | .minus | .times
+  | .symbol | .function | .boolConst | .intConst | .realConst | .arraySelect | .arrayStore | .forall_ | .exists_ => true
+  | _ => false
+
+def spellNode (op : Op) (p : Payload) : Bool :=
+  sliceOp op &&
+  (match op, p with
+   | .symbol, .sym s | .function, .sym s => hrName s.name
+   | .forall_, .qvars vs | .exists_, .qvars vs => vs.all (fun v => hrName v.name)
+   | _, _ => true)
+
+/-- every operator is in the slice and every name is a name the HR format can carry -/
+def hrSpellable : Term → Bool
+  | .node op args p => (args.map hrSpellable).all id && spellNode op p
+
+/-! ## "differs at most in the grouping of n-ary operators" -/
+
+/-- the arguments of an application of `op` (payload `p`), arguments that are themselves such applications spliced in -/
+def flatArgs (op : Op) (p : Payload) : List Term → List Term
+  | [] => []
+  | .node op' as' p' :: rest =>
+    if op' = op ∧ p' = p then as' ++ flatArgs op p rest else .node op' as' p' :: flatArgs op p rest
+
+/-- every nest of applications of one groupable operator (`And`/`Or`/`Plus`/`Times`) flattened into one application
+(bottom-up): `((a & b) & (c & d))`, `(a & (b & c) & d)` and `(a & b & c & d)` have the same flat form; `((p & q) | p)`
+and `(p & (q | p))` do not -/
+def flatNary : Term → Term
+  | .node op args p =>
+    if groupable op then .node op (flatArgs op p (args.map flatNary)) p else .node op (args.map flatNary) p
+
+/-- two terms (and hence their serialisations) differ at most in the grouping of n-ary operators -/
+def sameUpToGrouping (a b : Term) : Prop := flatNary a = flatNary b
+
+/-- token lists with the parentheses erased (a much coarser relation than `sameUpToGrouping`; auxiliary) -/
 def stripPar (l : List Tok) : List Tok := l.filter (fun t => t != lpar && t != rpar)
-def sameUpToGrouping (a b : List Tok) : Prop := stripPar a = stripPar b
 
 /-! ## what the model was written against -/
 
@@ -887,7 +968,8 @@ def alignedHashes : List (String × String) := [
   ("HRPrinter.printer", "213c2186322afe1d"),
   ("HRPrinter.walk_threshold", "b611a332794bba00"),
   ("HRPrinter.walk_nary", "55f936f6539eb225"),
-  ("HRPrinter.walk_quantifier", "7837c661d75231ae")]
+  ("HRPrinter.walk_quantifier", "7837c661d75231ae"),
+  ("utils.quote", "e48443c73b9f2dba")]
 
 /-- the functional rules of the scanner (not modelled: token level) the model was written against -/
 def alignedFunctional : List (String × String) := [
